@@ -20,6 +20,7 @@ import (
 type Config struct {
 	Workers      int
 	TimeoutMs    int
+	MaxPreempts  int
 	MaxSteps     int64
 	MaxFanout    int
 	MaxPaths     int64
